@@ -124,6 +124,13 @@ CHECKS = {
             "metacharacters) must equal the spec's. All three entry styles on every simulated and every 4th enumerated filter, the 2.x ORM style on all.",
             "Trusted: spec/Sem.tla (Kleene logic, NULL propagation; comparisons with NULL are unknown as the property "
             "states), SQLite 3.40, harness/backends.py fixtures. ASCII lower-case data; non-zero literal divisors."),
+    "C04": ("DESIGN.md 6/C04",
+            "TLC enumerates relational filters (MC_C04) and computes the selected parents with the TLA+ relational "
+            "evaluator Rel!EvalR on shape-complete database instances; replayed through the Django and SQLAlchemy "
+            "shorthands on the same data",
+            "Exhaustive up to 1 (thorough 2) connective/lambda bracket over 3 root models plus TLC-simulated deeper "
+            "filters, on 2 instances; each parent set must equal the spec's on both ORMs (so the ORMs agree).",
+            "Trusted: spec/Rel.tla; Django 6.1 / SQLAlchemy 2.0 / SQLite 3.40; lambda bodies over non-null child columns."),
 }
 
 PENDING = ["C01", "C02", "C03", "C04", "C06", "C07", "C08", "C09", "C10", "C11", "C12", "C13", "C14", "C15",
